@@ -233,7 +233,8 @@ soon as `tensor "=" expression` has matched a prefix of the input, before parsit
 whole input was consumed — so a validation error wins over trailing garbage -/
 def parseAssignment (s : String) : Except ParseErr PAssign :=
   let (ts, complete) := lex s
-  let fuel := ts.length + 1
+  -- each parenthesis level costs three calls (expression → term → factor) for two tokens
+  let fuel := 3 * ts.length + 3
   match ts with
   | .name n :: .lpar :: rest =>
     match parseIndexes rest with
